@@ -70,6 +70,10 @@ CHECKS = {
    text="Wire.tla models the frame parser as a state machine (header, global limit, magic, command utf8/known, per-type limit, payload read, checksum, decode) and gives the owed verdict for every buildable combination of frame classes x 18 message kinds (2141 rows, emitted by TLC; TLC checks RoundTrip, HostileRejected, AllocationBounded on the table); each row is concretised several times (3 quick / 40 thorough) at three protocol versions with random field values within protocol limits (times over the whole uint32 range); verdict compared; valid frames round-tripped (decoded value equality, byte-identical re-encoding through WriteMessage); every decode runs under a watchdog with allocation accounting; plus raw random bytes and bit-flip/truncation/splice mutations of valid frames.",
    technique="explicit TLA+ parser state machine (Wire.tla) checked and emitted by TLC; class-wise concretised frames and mutated frames against wire.ReadMessage/WriteMessage",
    note="The specification enumerates classes of frames; arbitrary mutated byte strings are sampled, not enumerated (a coverage-guided byte-level fuzzer is outside this technique family; DESIGN.md §6)."),
+ "C17": dict(cat="model_checking", ref="DESIGN.md §5 C17",
+   text="For distinct reachable stores of Chain.tla (stale and orphan headers present, zero-work and boundary field values) TLC emits the expected export (longest chain by height) and the verdict table of the import for every newest-checkpoint height x every single-row corruption class (malformed number/columns/hash, changed field, dropped row, duplicated row) x every row position; the harness runs database.ExportHeaders on the replayed store, compares the CSV row by row, imports each (corrupted) file into a fresh SQLite database with database.Init(prepared_db) and compares: accepted imports reproduce hashes, heights, fields, cumulative work, all LONGEST_CHAIN; refused imports fail start-up AND a second start on the same database fails too; a populated or genesis-only database is never touched by an import.",
+   technique="explicit TLA+ spec (Chain.tla store + import verdict operator in MC_Chain.tla) enumerated by TLC; export/import of every sampled store and corruption replayed on the real exporter/importer",
+   note=TB + " Stores are sampled from the exhaustive enumeration (100 quick / 6000 thorough) because each import needs a fresh database."),
 }
 
 NA = []
